@@ -24,3 +24,471 @@ Proof.
     - replace (k * 10 ^ 4 * (b * 10 ^ 14)) with (k * b * 10 ^ 18) by ring. apply Z.mod_mul. lia. }
   split; apply Hd; assumption.
 Qed.
+
+(* ---- Decimal helpers ------------------------------------------------------------------------------- *)
+Lemma dchk_eq : forall z x, dchk z = Some x -> x = z.
+Proof. intros z x H. unfold dchk in H. destruct (in_i192 z); congruence. Qed.
+Lemma dadd_eq : forall a b x, dadd a b = Some x -> x = a + b.
+Proof. intros. apply dchk_eq in H. exact H. Qed.
+Lemma dsub_eq : forall a b x, dsub a b = Some x -> x = a - b.
+Proof. intros. apply dchk_eq in H. exact H. Qed.
+Lemma dmul_eq : forall a b x, dmul a b = Some x -> x = Z.quot (a * b) ONE.
+Proof. intros a b x H. unfold dmul in H. destruct (in_i256 (a * b)); [|discriminate]. apply dchk_eq in H. exact H. Qed.
+Lemma dmul_of_int : forall a u x, dmul a (of_int u) = Some x -> x = a * u.
+Proof.
+  intros a u x H. apply dmul_eq in H. subst x. unfold of_int.
+  replace (a * (u * ONE)) with (a * u * ONE) by ring. apply Z.quot_mul. unfold ONE. lia.
+Qed.
+
+Ltac dd := repeat match goal with
+  | H : dadd ?a ?b = Some ?x |- _ => apply dadd_eq in H
+  | H : dsub ?a ?b = Some ?x |- _ => apply dsub_eq in H
+  | H : dmul ?a (of_int ?b) = Some ?x |- _ => apply dmul_of_int in H
+  end.
+
+Ltac sr := cbn [cp tp_tip free_credit abort_when_repaid eff_exec eff_fin balance owed exec_c exec_d fin_c
+  fin_d royalty_c royalty_bd storage_c storage_d locked set_balance set_owed set_exec set_fin
+  set_royalty set_storage set_locked] in *.
+
+(* ---- the reserve invariant ---------------------------------------------------------------------------- *)
+Definition lsum (l : list (Z * Z * bool)) : Z :=
+  fold_right (fun (e : Z * Z * bool) acc => if snd e then acc else snd (fst e) + acc) 0 l.
+Definition bdsum (l : list (Z * Z)) : Z := fold_right (fun (e : Z * Z) acc => snd e + acc) 0 l.
+
+(* what the running balance has deducted so far *)
+Definition deducted (r : reserve) : Z :=
+  eff_exec r * exec_c r + eff_fin r * fin_c r + storage_c r + royalty_c r.
+
+Record Inv (r : reserve) : Prop := mkInv {
+  i_bal : balance r = owed r + free_credit r + lsum (locked r) - deducted r;
+  i_bal0 : 0 <= balance r;
+  i_owed0 : 0 <= owed r;
+  i_roy0 : 0 <= royalty_c r;
+  i_free0 : 0 <= free_credit r;
+  i_usd0 : 0 <= usd_price (cp r);
+  i_lim : exec_c r <= exec_limit (cp r) /\ fin_c r <= fin_limit (cp r);
+  i_bd : bdsum (royalty_bd r) = royalty_c r;
+  i_locks : Forall (fun e => 0 <= snd (fst e)) (locked r)
+}.
+Definition Static (r r' : reserve) : Prop :=
+  cp r' = cp r /\ tp_tip r' = tp_tip r /\ free_credit r' = free_credit r
+  /\ eff_exec r' = eff_exec r /\ eff_fin r' = eff_fin r /\ abort_when_repaid r' = abort_when_repaid r.
+Lemma static_refl : forall r, Static r r.
+Proof. intros; repeat split. Qed.
+Lemma static_trans : forall a b c, Static a b -> Static b c -> Static a c.
+Proof. unfold Static. intros a b c (A1&A2&A3&A4&A5&A6) (B1&B2&B3&B4&B5&B6). repeat split; congruence. Qed.
+
+(* well-formed operations: unsigned quantities are non-negative, locked resources are non-negative *)
+Definition op_wf (o : fop) : Prop :=
+  match o with
+  | LockFee _ a _ => 0 <= a
+  | _ => True
+  end.
+
+Ltac same H := injection H as <- <-; split; [assumption|apply static_refl].
+
+Lemma consume_exec_internal_inv : forall r u o r',
+  consume_exec_internal r u = (o, r') -> Inv r -> Inv r' /\ Static r r'.
+Proof.
+  intros r u o r' H I. unfold consume_exec_internal in H.
+  destruct (U32_MAX <? exec_c r + u); [same H|].
+  destruct (exec_limit (cp r) <? exec_c r + u) eqn:E; [same H|]. apply Z.ltb_ge in E.
+  destruct (dmul (eff_exec r) (of_int u)) as [amount|] eqn:Em; [|same H].
+  destruct (balance r <? amount) eqn:Eb; [same H|]. apply Z.ltb_ge in Eb.
+  destruct (dsub (balance r) amount) as [b|] eqn:Es; [|same H].
+  injection H as <- <-. dd. subst. destruct I. unfold deducted in *.
+  split; [constructor; unfold deducted; sr; try assumption; try lia|repeat split].
+Qed.
+
+Lemma consume_fin_internal_inv : forall r u o r',
+  consume_fin_internal r u = (o, r') -> Inv r -> Inv r' /\ Static r r'.
+Proof.
+  intros r u o r' H I. unfold consume_fin_internal in H.
+  destruct (U32_MAX <? fin_c r + u); [same H|].
+  destruct (fin_limit (cp r) <? fin_c r + u) eqn:E; [same H|]. apply Z.ltb_ge in E.
+  destruct (dmul (eff_fin r) (of_int u)) as [amount|] eqn:Em; [|same H].
+  destruct (balance r <? amount) eqn:Eb; [same H|]. apply Z.ltb_ge in Eb.
+  destruct (dsub (balance r) amount) as [b|] eqn:Es; [|same H].
+  injection H as <- <-. dd. subst. destruct I. unfold deducted in *.
+  split; [constructor; unfold deducted; sr; try assumption; try lia|repeat split].
+Qed.
+
+Lemma consume_storage_inv : forall r t size o r',
+  consume_storage r t size = (o, r') -> Inv r -> Inv r' /\ Static r r'.
+Proof.
+  intros r t size o r' H I. unfold consume_storage in H.
+  destruct (dmul _ (of_int size)) as [amount|] eqn:Em; [|same H].
+  destruct (balance r <? amount) eqn:Eb; [same H|]. apply Z.ltb_ge in Eb.
+  destruct (dsub (balance r) amount) as [b|] eqn:Es; [|same H].
+  destruct (dadd (storage_c r) amount) as [sc|] eqn:Ea; [|same H].
+  injection H as <- <-. apply dsub_eq in Es. apply dadd_eq in Ea. subst. destruct I. unfold deducted in *.
+  split; [constructor; unfold deducted; sr; try assumption; try lia|repeat split].
+Qed.
+
+(* changing only the deferred bookkeeping keeps the invariant *)
+Lemma inv_set_exec_d : forall r d, Inv r -> Inv (set_exec r (exec_c r) d) /\ Static r (set_exec r (exec_c r) d).
+Proof. intros r d I. destruct I. unfold deducted in *. split; [constructor; unfold deducted; sr; assumption|repeat split]. Qed.
+Lemma inv_set_fin_d : forall r d, Inv r -> Inv (set_fin r (fin_c r) d) /\ Static r (set_fin r (fin_c r) d).
+Proof. intros r d I. destruct I. unfold deducted in *. split; [constructor; unfold deducted; sr; assumption|repeat split]. Qed.
+Lemma inv_set_storage_d : forall r d, Inv r -> Inv (set_storage r (storage_c r) d) /\ Static r (set_storage r (storage_c r) d).
+Proof. intros r d I. destruct I. unfold deducted in *. split; [constructor; unfold deducted; sr; assumption|repeat split]. Qed.
+
+Lemma repay_storage_inv : forall ks r o r',
+  repay_storage r ks = (o, r') -> Inv r -> Inv r' /\ Static r r'.
+Proof.
+  induction ks as [|t ks IH]; intros r o r' H I; cbn [repay_storage] in H; [same H|].
+  destruct (find _ (storage_d r)) as [e|]; [|same H].
+  destruct (consume_storage r t (snd e)) as [o1 r1] eqn:E1.
+  destruct (consume_storage_inv _ _ _ _ _ E1 I) as (I1 & S1).
+  destruct o1; try (injection H as <- <-; auto; fail).
+  destruct (inv_set_storage_d r1 (filter (fun e0 => negb (st_eqb (fst e0) t)) (storage_d r1)) I1) as (I2 & S2).
+  destruct (IH _ _ _ H I2) as (I3 & S3). split; [exact I3|].
+  eapply static_trans; [exact S1|]. eapply static_trans; [exact S2|exact S3].
+Qed.
+
+Lemma repay_all_inv : forall r o r',
+  repay_all r = (o, r') -> Inv r -> Inv r' /\ Static r r'.
+Proof.
+  intros r o r' H I. unfold repay_all in H.
+  destruct (consume_exec_internal r (exec_d r)) as [o1 r1] eqn:E1.
+  destruct (consume_exec_internal_inv _ _ _ _ E1 I) as (I1 & S1).
+  destruct o1; try (injection H as <- <-; auto; fail).
+  destruct (inv_set_exec_d r1 0 I1) as (I1' & S1'). set (r1' := set_exec r1 (exec_c r1) 0) in *.
+  destruct (consume_fin_internal r1' (fin_d r1')) as [o2 r2] eqn:E2.
+  destruct (consume_fin_internal_inv _ _ _ _ E2 I1') as (I2 & S2).
+  assert (S02 : Static r r2) by (eapply static_trans; [exact S1|]; eapply static_trans; [exact S1'|exact S2]).
+  destruct o2; try (injection H as <- <-; auto; fail).
+  destruct (inv_set_fin_d r2 0 I2) as (I2' & S2'). set (r2' := set_fin r2 (fin_c r2) 0) in *.
+  destruct (repay_storage r2' (map fst (storage_d r2'))) as [o3 r3] eqn:E3.
+  destruct (repay_storage_inv _ _ _ _ E3 I2') as (I3 & S3).
+  assert (S03 : Static r r3) by (eapply static_trans; [exact S02|]; eapply static_trans; [exact S2'|exact S3]).
+  destruct o3; try (injection H as <- <-; auto; fail).
+  destruct (dsub (owed r3) (Z.min (balance r3) (owed r3))) as [ow|] eqn:Eo; [|injection H as <- <-; auto].
+  destruct (dsub (balance r3) (Z.min (balance r3) (owed r3))) as [b|] eqn:Eb; [|injection H as <- <-; auto].
+  apply dsub_eq in Eo, Eb.
+  assert (I4 : Inv (set_balance (set_owed r3 ow) b)).
+  { destruct I3. unfold deducted in *. constructor; unfold deducted; sr; try assumption; lia. }
+  assert (S4 : Static r (set_balance (set_owed r3 ow) b)).
+  { eapply static_trans; [exact S03|]. repeat split. }
+  destruct (negb (ow =? 0)); [injection H as <- <-; auto|].
+  destruct (abort_when_repaid (set_balance (set_owed r3 ow) b)); injection H as <- <-; auto.
+Qed.
+
+Lemma bd_add_sum : forall bd k a bd', bd_add bd k a = Some bd' -> bdsum bd' = bdsum bd + a.
+Proof.
+  induction bd as [|[k' v] bd IH]; intros k a bd' H; cbn [bd_add] in H.
+  - destruct (dadd 0 a) eqn:E; [|discriminate]. injection H as <-. apply dadd_eq in E.
+    unfold bdsum; cbn [fold_right snd]. lia.
+  - destruct (k' =? k).
+    + destruct (dadd v a) eqn:E; [|discriminate]. injection H as <-. apply dadd_eq in E.
+      unfold bdsum; cbn [fold_right snd]. lia.
+    + destruct (bd_add bd k a) eqn:E; [|discriminate]. injection H as <-. apply IH in E.
+      unfold bdsum in *; cbn [fold_right snd] in *. lia.
+Qed.
+
+Lemma lsum_app : forall a b, lsum (a ++ b) = lsum a + lsum b.
+Proof.
+  induction a as [|[[v x] c] a IH]; intros b; [reflexivity|].
+  unfold lsum in *. cbn [app fold_right snd fst]. rewrite IH. destruct c; lia.
+Qed.
+Lemma lsum_one : forall v a c, lsum [(v, a, c)] = if c then 0 else a.
+Proof. intros. unfold lsum. cbn [fold_right snd fst]. destruct c; lia. Qed.
+
+Theorem apply_op_inv : forall r op o r',
+  apply_op r op = (o, r') -> op_wf op -> Inv r -> Inv r' /\ Static r r'.
+Proof.
+  intros r op o r' H W I. destruct op; cbn [apply_op] in H.
+  - destruct (U32_MAX <? exec_d r + u); [same H|]. injection H as <- <-. apply inv_set_exec_d. exact I.
+  - destruct (U32_MAX <? fin_d r + u); [same H|]. injection H as <- <-. apply inv_set_fin_d. exact I.
+  - destruct (USIZE_MAX <? _); [same H|]. injection H as <- <-. apply inv_set_storage_d. exact I.
+  - destruct (u =? 0); [same H|].
+    destruct (consume_exec_internal r u) as [o1 r1] eqn:E1.
+    destruct (consume_exec_internal_inv _ _ _ _ E1 I) as (I1 & S1).
+    destruct o1; try (injection H as <- <-; auto; fail).
+    destruct (negb (fully_repaid r1) && (exec_loan (cp r1) <=? exec_c r1)).
+    + destruct (repay_all_inv _ _ _ H I1) as (I2 & S2). split; [exact I2|eapply static_trans; eauto].
+    + injection H as <- <-. auto.
+  - destruct (u =? 0); [same H|]. eapply consume_fin_internal_inv; eauto.
+  - eapply consume_storage_inv; eauto.
+  - match type of H with (if ?z then _ else _) = _ => destruct z end; [same H|].
+    match type of H with (if ?z then _ else _) = _ => destruct z eqn:En end; [same H|].
+    match type of H with (match ?z with Some _ => _ | None => _ end) = _ => destruct z as [amount|] eqn:Ea end; [|same H].
+    destruct (balance r <? amount) eqn:Eb; [same H|]. apply Z.ltb_ge in Eb.
+    destruct (dsub (balance r) amount) as [b|] eqn:Es; [|same H].
+    destruct (bd_add (royalty_bd r) recipient amount) as [bd|] eqn:Ebd; [|same H].
+    destruct (dadd (royalty_c r) amount) as [rc|] eqn:Erc; [|same H].
+    injection H as <- <-. apply dsub_eq in Es. apply dadd_eq in Erc. apply bd_add_sum in Ebd. subst.
+    assert (0 <= amount).
+    { destruct a; cbn in En; try apply Z.ltb_ge in En.
+      - injection Ea as <-. lia.
+      - destruct I. apply dmul_eq in Ea. subst amount.
+        apply Z.quot_pos; [apply Z.mul_nonneg_nonneg; lia|unfold ONE; lia].
+      - injection Ea as <-. lia. }
+    destruct I. unfold deducted in *.
+    split; [constructor; unfold deducted; sr; try assumption; try lia|repeat split].
+  - cbn in W. destruct contingent.
+    + injection H as <- <-. destruct I. unfold deducted in *.
+      split; [constructor; unfold deducted; sr; try assumption|repeat split].
+      * rewrite lsum_app, lsum_one. lia.
+      * apply Forall_app. split; [assumption|]. constructor; [cbn; lia|constructor].
+    + destruct (dadd (balance r) amount) as [b|] eqn:Ea; [|same H].
+      injection H as <- <-. apply dadd_eq in Ea. subst. destruct I. unfold deducted in *.
+      split; [constructor; unfold deducted; sr; try assumption; try lia|repeat split].
+      * rewrite lsum_app, lsum_one. lia.
+      * apply Forall_app. split; [assumption|]. constructor; [cbn; lia|constructor].
+  - eapply repay_all_inv; eauto.
+  - destruct (dadd (balance r) (royalty_c r)) as [b|] eqn:Ea; [|same H].
+    injection H as <- <-. apply dadd_eq in Ea. subst. destruct I. unfold deducted in *.
+    split; [constructor; unfold deducted; sr; try assumption; try lia; reflexivity|repeat split].
+Qed.
+
+(* ---- reachable reserves ------------------------------------------------------------------------------ *)
+Definition EffOk (r : reserve) : Prop :=
+  dmul (exec_price (cp r)) (ONE + proportion (tp_tip r)) = Some (eff_exec r)
+  /\ dmul (fin_price (cp r)) (ONE + proportion (tp_tip r)) = Some (eff_fin r).
+
+Lemma proportion_nonneg : forall t, tip_wf t -> 0 <= proportion t.
+Proof. intros [|x|x] H; cbn in *; lia. Qed.
+
+Lemma new_inv : forall p t free abort r,
+  0 <= exec_limit p -> 0 <= fin_limit p -> 0 <= exec_loan p -> tip_wf t ->
+  reserve_new p t free abort = Some r -> Inv r /\ EffOk r /\ cp r = p /\ tp_tip r = t.
+Proof.
+  intros p t free abort r L1 L2 L3 Wt H. pose proof (proportion_nonneg t Wt) as Hp. unfold reserve_new in H.
+  destruct (_ || _) eqn:E in H; [discriminate|].
+  repeat (apply orb_false_iff in E; destruct E as [E ?]).
+  repeat match goal with H : (_ <? _) = false |- _ => apply Z.ltb_ge in H end.
+  destruct (dadd ONE (proportion t)) as [mult|] eqn:Em; [|discriminate]. apply dadd_eq in Em. subst mult.
+  destruct (dmul (exec_price p) (ONE + proportion t)) as [ee|] eqn:E1; [|discriminate].
+  destruct (dmul (fin_price p) (ONE + proportion t)) as [ef|] eqn:E2; [|discriminate].
+  destruct (dmul ee (of_int (exec_loan p))) as [loan|] eqn:E3; [|discriminate].
+  destruct (dadd loan free) as [start|] eqn:E4; [|discriminate].
+  injection H as <-. apply dadd_eq in E4. subst start.
+  assert (0 <= loan).
+  { apply dmul_of_int in E3. subst loan. pose proof E1 as E1'. apply dmul_eq in E1'. subst ee.
+    apply Z.mul_nonneg_nonneg; [|lia]. apply Z.quot_pos; [|unfold ONE; lia].
+    apply Z.mul_nonneg_nonneg; [lia|]. unfold ONE in *. lia. }
+  split; [|split; [split; assumption|split; reflexivity]].
+  constructor; unfold deducted, lsum, bdsum; sr; cbn [fold_right]; try lia; auto.
+Qed.
+
+Lemma effok_static : forall r r', Static r r' -> EffOk r -> EffOk r'.
+Proof. unfold Static, EffOk. intros r r' (A1&A2&A3&A4&A5&A6) (E1&E2). rewrite A1, A2, A4, A5. auto. Qed.
+
+Lemma run_ops_inv : forall os r outs r',
+  run_ops r os = (outs, r') -> Forall op_wf os -> Inv r -> Inv r' /\ Static r r'.
+Proof.
+  induction os as [|o os IH]; intros r outs r' H W I; cbn [run_ops] in H.
+  - injection H as _ <-. split; [exact I|apply static_refl].
+  - inversion W as [|? ? W1 W2]; subst.
+    destruct (apply_op r o) as [x r1] eqn:E1.
+    destruct (apply_op_inv _ _ _ _ E1 W1 I) as (I1 & S1).
+    destruct x.
+    + destruct (run_ops r1 os) as [xs r2] eqn:E2. injection H as _ <-.
+      destruct (IH _ _ _ E2 W2 I1) as (I2 & S2). split; [exact I2|eapply static_trans; eauto].
+    + destruct (run_ops r1 os) as [xs r2] eqn:E2. injection H as _ <-.
+      destruct (IH _ _ _ E2 W2 I1) as (I2 & S2). split; [exact I2|eapply static_trans; eauto].
+    + injection H as _ <-. auto.
+Qed.
+
+(* C06_limits *)
+Theorem limits : forall p t free abort r0 os outs r,
+  0 <= exec_limit p -> 0 <= fin_limit p -> 0 <= exec_loan p -> tip_wf t ->
+  reserve_new p t free abort = Some r0 -> Forall op_wf os -> run_ops r0 os = (outs, r) ->
+  exec_c r <= exec_limit p /\ fin_c r <= fin_limit p.
+Proof.
+  intros p t free abort r0 os outs r L1 L2 L3 Wt Hn W Hr.
+  destruct (new_inv _ _ _ _ _ L1 L2 L3 Wt Hn) as (I0 & _ & Hcp & _).
+  destruct (run_ops_inv _ _ _ _ Hr W I0) as (I & (S1 & _)).
+  destruct I. rewrite S1, Hcp in *. assumption.
+Qed.
+
+(* C06_no_commit_with_debt *)
+Theorem no_commit_with_debt : forall ok r b r',
+  determine_result ok r = (Commit b, r') -> owed r' = 0.
+Proof.
+  intros ok r b r' H. unfold determine_result in H.
+  destruct (repay_all r) as [o r1] eqn:E.
+  assert (Ho : o = OOk -> owed r1 = 0).
+  { intros ->. unfold repay_all in E.
+    destruct (consume_exec_internal r (exec_d r)) as [o1 x1]; destruct o1; try discriminate.
+    destruct (consume_fin_internal _ _) as [o2 x2]; destruct o2; try discriminate.
+    destruct (repay_storage _ _) as [o3 x3]; destruct o3; try discriminate.
+    destruct (dsub (owed x3) _) as [ow|]; [|discriminate].
+    destruct (dsub (balance x3) _) as [bb|]; [|discriminate].
+    destruct (negb (ow =? 0)) eqn:En; [discriminate|].
+    apply negb_false_iff in En. apply Z.eqb_eq in En.
+    destruct (abort_when_repaid _); [discriminate|]. injection E as <-. sr. exact En. }
+  destruct o.
+  - destruct ok.
+    + injection H as _ <-. auto.
+    + destruct (fully_repaid r1) eqn:F; [|discriminate]. injection H as _ <-. apply Z.eqb_eq in F. exact F.
+  - destruct ok.
+    + destruct e; discriminate.
+    + destruct (fully_repaid r1) eqn:F; [|discriminate]. injection H as _ <-. apply Z.eqb_eq in F. exact F.
+  - discriminate.
+Qed.
+
+(* ---- exactness of the tip under TipExact ------------------------------------------------------------- *)
+Lemma eff_split : forall price prop eff,
+  (price * prop) mod ONE = 0 -> dmul price (ONE + prop) = Some eff ->
+  eff = price + (price * prop) / ONE.
+Proof.
+  intros price prop eff Hm H. apply dmul_eq in H. subst eff.
+  apply Z.mod_divide in Hm; [|unfold ONE; lia]. destruct Hm as [k Hk].
+  replace (price * (ONE + prop)) with ((price + k) * ONE) by (rewrite Z.mul_add_distr_l, Hk; ring).
+  rewrite Z.quot_mul by (unfold ONE; lia). rewrite Hk, Z.div_mul by (unfold ONE; lia). reflexivity.
+Qed.
+
+Lemma tip_part : forall price prop c x y,
+  (price * prop) mod ONE = 0 -> dmul price (of_int c) = Some x -> dmul x prop = Some y ->
+  x = price * c /\ y = c * ((price * prop) / ONE).
+Proof.
+  intros price prop c x y Hm H1 H2. apply dmul_of_int in H1. subst x. split; [reflexivity|].
+  apply dmul_eq in H2. subst y.
+  apply Z.mod_divide in Hm; [|unfold ONE; lia]. destruct Hm as [k Hk].
+  replace (price * c * prop) with (c * (price * prop)) by ring. rewrite Hk.
+  replace (c * (k * ONE)) with (c * k * ONE) by ring.
+  rewrite Z.quot_mul by (unfold ONE; lia). rewrite Z.div_mul by (unfold ONE; lia). reflexivity.
+Qed.
+
+(* under TipExact the finalised total cost is exactly what the running balance deducted *)
+Theorem total_is_deducted : forall r s T,
+  EffOk r -> TipExact (cp r) (tp_tip r) -> finalize r = Some s -> total_cost s = Some T ->
+  T = deducted r.
+Proof.
+  intros r s T (E1 & E2) (X1 & X2) Hf Ht. unfold finalize in Hf.
+  destruct (dmul (exec_price (cp r)) (of_int (exec_c r))) as [ex|] eqn:A1; [|discriminate].
+  destruct (dmul (fin_price (cp r)) (of_int (fin_c r))) as [fx|] eqn:A2; [|discriminate].
+  destruct (dmul ex (proportion (tp_tip r))) as [te|] eqn:A3; [|discriminate].
+  destruct (dmul fx (proportion (tp_tip r))) as [tf|] eqn:A4; [|discriminate].
+  destruct (dadd te tf) as [tipx|] eqn:A5; [|discriminate]. injection Hf as <-.
+  destruct (tip_part _ _ _ _ _ X1 A1 A3) as (-> & ->).
+  destruct (tip_part _ _ _ _ _ X2 A2 A4) as (-> & ->).
+  apply dadd_eq in A5. subst tipx.
+  unfold total_cost, obind in Ht. cbn [s_exec_xrd s_fin_xrd s_tip_xrd s_storage_xrd s_royalty_xrd] in Ht.
+  destruct (dadd _ _) as [a|] eqn:B1 in Ht; [|discriminate]. apply dadd_eq in B1.
+  destruct (dadd a _) as [b|] eqn:B2 in Ht; [|discriminate]. apply dadd_eq in B2.
+  destruct (dadd b _) as [c|] eqn:B3 in Ht; [|discriminate]. apply dadd_eq in B3.
+  apply dadd_eq in Ht. subst. unfold deducted.
+  rewrite (eff_split _ _ _ X1 E1), (eff_split _ _ _ X2 E2). ring.
+Qed.
+
+(* ---- fee collection ------------------------------------------------------------------------------------ *)
+Definition elig1 (ok : bool) (e : Z * Z * bool) : Z :=
+  if snd e then (if ok then snd (fst e) else 0) else snd (fst e).
+Definition elig (ok : bool) (ls : list (Z * Z * bool)) : Z :=
+  fold_right (fun e acc => elig1 ok e + acc) 0 ls.
+Definition NonNegLocks (ls : list (Z * Z * bool)) : Prop := Forall (fun e => 0 <= snd (fst e)) ls.
+
+Lemma elig_cons : forall ok e ls, elig ok (e :: ls) = elig1 ok e + elig ok ls.
+Proof. reflexivity. Qed.
+Lemma elig_app : forall ok a b, elig ok (a ++ b) = elig ok a + elig ok b.
+Proof. induction a as [|e a IH]; intros b; [reflexivity|]. rewrite <- app_comm_cons, !elig_cons, IH. lia. Qed.
+Lemma elig_rev : forall ok l, elig ok (rev l) = elig ok l.
+Proof.
+  induction l as [|e l IH]; [reflexivity|]. cbn [rev]. rewrite elig_app, IH, !elig_cons.
+  change (elig ok []) with 0. lia.
+Qed.
+Lemma elig1_bounds : forall ok e, 0 <= snd (fst e) -> 0 <= elig1 ok e /\ (if snd e then 0 else snd (fst e)) <= elig1 ok e.
+Proof. intros ok [[v a] c] H. unfold elig1. cbn in *. destruct c, ok; lia. Qed.
+Lemma elig_ge_lsum : forall ok l, NonNegLocks l -> 0 <= elig ok l /\ lsum l <= elig ok l.
+Proof.
+  induction l as [|e l IH]; intros H; [cbn; lia|]. inversion H as [|? ? H1 H2]; subst.
+  destruct (IH H2). rewrite elig_cons. destruct (elig1_bounds ok e H1).
+  unfold lsum in *. cbn [fold_right]. destruct (snd e); lia.
+Qed.
+
+Lemma take_fees_spec : forall ls ok req col pay refs,
+  NonNegLocks ls -> 0 <= req ->
+  match take_fees ls ok req col pay refs with
+  | inr k => k = PkOverflow
+  | inl None => True
+  | inl (Some (req', col', pay', _)) =>
+      req' = Z.max 0 (req - elig ok ls) /\ col' = col + (req - req') /\ bdsum pay' = bdsum pay + (req - req')
+  end.
+Proof.
+  induction ls as [|[[v lk] c] ls IH]; intros ok req col pay refs Hn Hr; cbn [take_fees].
+  - unfold elig. cbn [fold_right]. lia.
+  - inversion Hn as [|? ? H1 H2]; subst. cbn [fst snd] in H1.
+    set (amount := if c then if ok then Z.min lk req else 0 else Z.min lk req).
+    assert (Ha : 0 <= amount <= lk /\ amount <= req) by (unfold amount; destruct c, ok; lia).
+    destruct (lk <? amount) eqn:E; [apply Z.ltb_lt in E; lia|].
+    destruct (dsub lk amount) as [rest|] eqn:E1; [|reflexivity].
+    destruct (dadd col amount) as [col1|] eqn:E2; [|reflexivity].
+    destruct (dsub req amount) as [req1|] eqn:E3; [|reflexivity].
+    destruct (bd_add pay v amount) as [pay1|] eqn:E4; [|reflexivity].
+    apply dsub_eq in E1, E3. apply dadd_eq in E2. apply bd_add_sum in E4. subst.
+    specialize (IH ok (req - amount) (col + amount) pay1 (refs ++ [(v, lk - amount)]) H2 ltac:(lia)).
+    destruct (take_fees ls ok (req - amount) (col + amount) pay1 (refs ++ [(v, lk - amount)])) as [[[[[r' c'] p'] f']|]|k]; auto.
+    destruct IH as (I1 & I2 & I3). rewrite elig_cons. unfold elig1. cbn [fst snd].
+    destruct (elig_ge_lsum ok ls H2) as (G0 & _).
+    unfold amount in *. destruct c, ok; lia.
+Qed.
+
+(* C06_collected_equals_cost / C06_exact_split: with TipExact, for a reserve satisfying the invariant
+   whose loan is repaid, fee distribution never trips one of its three sanity assertions (only an
+   I192 overflow is left as a possible panic), what is taken from the vaults plus the free credit
+   used is exactly the total cost, and proposer + validator set + burn + royalties is the same amount *)
+Theorem distribute_exact : forall sh r ok s,
+  Inv r -> EffOk r -> TipExact (cp r) (tp_tip r) -> owed r = 0 -> 0 <= deducted r ->
+  finalize r = Some s ->
+  match distribute sh s (free_credit r) ok with
+  | DPanic k => k = PkOverflow
+  | DOk o =>
+      total_cost s = Some (d_collected o)
+      /\ d_collected o = deducted r
+      /\ bdsum (d_payments o) + d_free_used o = d_collected o
+      /\ 0 <= d_free_used o <= free_credit r
+      /\ d_proposer o + d_validator o + d_burn o + royalty_c r = d_collected o
+      /\ bdsum (d_royalties o) = royalty_c r
+  end.
+Proof.
+  intros sh r ok s I E X Ho Hd Hf. unfold distribute.
+  destruct (total_cost s) as [T|] eqn:Et; [|reflexivity].
+  pose proof (total_is_deducted _ _ _ E X Hf Et) as HT.
+  assert (Hs : s_locked s = locked r /\ s_bad_debt s = owed r /\ s_royalty_xrd s = royalty_c r /\ s_royalty_bd s = royalty_bd r).
+  { unfold finalize in Hf.
+    destruct (dmul (exec_price (cp r)) _); [|discriminate]. destruct (dmul (fin_price (cp r)) _); [|discriminate].
+    destruct (dmul z _); [|discriminate]. destruct (dmul z0 _); [|discriminate].
+    destruct (dadd _ _); [|discriminate]. injection Hf as <-. cbn. auto. }
+  destruct Hs as (S1 & S2 & S3 & S4). destruct I.
+  assert (Hn : NonNegLocks (rev (s_locked s))).
+  { rewrite S1. unfold NonNegLocks. apply Forall_rev. assumption. }
+  pose proof (take_fees_spec (rev (s_locked s)) ok T 0 [] [] Hn ltac:(lia)) as Hspec.
+  destruct (take_fees (rev (s_locked s)) ok T 0 [] []) as [[[[[req1 col1] pay] refunds]|]|k]; [| reflexivity | exact Hspec].
+  destruct Hspec as (R1 & R2 & R3).
+  rewrite S1, elig_rev in R1.
+  destruct (elig_ge_lsum ok (locked r) i_locks0) as (G0 & G1).
+  set (fc := if 0 <? free_credit r then Z.min (free_credit r) req1 else 0).
+  assert (Hfc : req1 - fc = 0 /\ 0 <= fc <= free_credit r).
+  { unfold fc. destruct (0 <? free_credit r) eqn:F; [apply Z.ltb_lt in F|apply Z.ltb_ge in F]; lia. }
+  destruct (dadd col1 fc) as [col2|] eqn:C2; [|reflexivity]. apply dadd_eq in C2.
+  destruct (dsub req1 fc) as [req2|] eqn:C3; [|reflexivity]. apply dsub_eq in C3.
+  destruct (to_proposer sh s) as [p|] eqn:P1; [|reflexivity].
+  destruct (to_validator_set sh s) as [v|] eqn:P2; [|reflexivity].
+  destruct (to_burn sh s) as [b|] eqn:P3; [|reflexivity].
+  rewrite S2, Ho. cbn [Z.eqb negb].
+  replace (req2 =? 0) with true by (symmetry; apply Z.eqb_eq; lia). cbn [negb].
+  destruct (dsub col2 (s_royalty_xrd s)) as [remaining|] eqn:C4; [|reflexivity]. apply dsub_eq in C4.
+  destruct (obind (dadd p v) (fun x => dadd x b)) as [to_dist|] eqn:C5; [|reflexivity].
+  unfold obind in C5. destruct (dadd p v) as [pv|] eqn:C6; [|discriminate]. apply dadd_eq in C6, C5.
+  (* burn is defined as the remainder, so the split is exact *)
+  assert (Hb : p + v + b = T - s_royalty_xrd s).
+  { unfold to_burn, obind in P3. rewrite P1, P2 in P3.
+    destruct (network_fees s) as [nf|] eqn:N1; [|discriminate].
+    destruct (dadd (s_tip_xrd s) nf) as [a|] eqn:N2; [|discriminate].
+    destruct (dsub a p) as [bb|] eqn:N3; [|discriminate].
+    apply dadd_eq in N2. apply dsub_eq in N3, P3.
+    unfold network_fees, obind in N1. destruct (dadd (s_exec_xrd s) (s_fin_xrd s)) as [x|] eqn:N4; [|discriminate].
+    apply dadd_eq in N4, N1.
+    unfold total_cost, obind in Et.
+    destruct (dadd (s_exec_xrd s) (s_fin_xrd s)) as [x'|] eqn:T1; [|discriminate].
+    destruct (dadd x' (s_tip_xrd s)) as [y|] eqn:T2; [|discriminate].
+    destruct (dadd y (s_storage_xrd s)) as [z|] eqn:T3; [|discriminate].
+    apply dadd_eq in T1, T2, T3, Et. lia. }
+  replace (remaining =? to_dist) with true by (symmetry; apply Z.eqb_eq; lia). cbn [negb].
+  cbn [d_collected d_payments d_free_used d_proposer d_validator d_burn d_royalties].
+  rewrite S4. unfold bdsum in R3 at 2. cbn [fold_right] in R3.
+  repeat split; try lia. f_equal. lia.
+Qed.
